@@ -29,3 +29,7 @@ ASSUMPTIONS = [
 
 # dimensions added in seeded rounds 6 and 7
 PROBES = list(PROBES) + ["integer-arguments-as-numpy-scalars"]
+
+# dimensions added in seeded round 9
+PROBES = list(PROBES) + ["full-range-data"]
+RULE = RULE + " Round 9: 30% of 8-bit scenarios use the whole range of the sample type (sums stay below 2^24: exact in float32); header key order / optional keys varied."
